@@ -138,19 +138,18 @@ func (p *c08Pool) askRaw(line string) string {
 		s, err := p.out.ReadString('\n')
 		ch <- ans{s, err}
 	}()
-	select {
-	case a := <-ch:
-		if a.e != nil {
-			p.cmd.Process.Kill()
-			p.cmd.Wait()
-			return "died"
-		}
-		return strings.TrimSpace(a.s)
-	case <-time.After(20 * time.Second):
+	a, ok := lib.WaitHang("c08/decode", 20*time.Second, ch) // out of the run's hang budget (lib/budget.go)
+	if !ok {
 		p.cmd.Process.Kill()
 		p.cmd.Wait()
 		return "hang"
 	}
+	if a.e != nil {
+		p.cmd.Process.Kill()
+		p.cmd.Wait()
+		return "died"
+	}
+	return strings.TrimSpace(a.s)
 }
 func (p *c08Pool) stop() { p.in.Close(); p.cmd.Wait() }
 
@@ -302,6 +301,9 @@ func checkC08(c *lib.Ctx) {
 	for _, cs := range cases {
 		if cs.Entry == "client" {
 			continue // run below, through C20's child
+		}
+		if c.Stop("c08/decode") {
+			continue
 		}
 		if cs.Entry == "fxframe" {
 			if cs.Frame == nil {
